@@ -84,8 +84,8 @@ Print Assumptions C19_rehash_values_bound.
    (key, value) pairs: for every predicate Q the number of stored pairs satisfying Q is unchanged (with
    Q = "equals (k, v)" this is the multiplicity of (k, v)).  Hypotheses of the first statement = what the
    callers guarantee (`len` is the number of Valid slots and is below the target capacity).
-   NOT proved here: that every stored pair is still FOUND by probing after a rehash (that needs the
-   probe-chain invariant of the table; results of lookups are covered by the differential runs only). *)
+   That every stored pair is still FOUND by probing after a rehash is C19_rehash_keeps_lookups /
+   C19_rehash_in_place_keeps_lookups below (it needs the probe-chain invariant of the table). *)
 Theorem C19_rehash_preserves_entries :
   forall (K V : Type) (h : K -> N) (mincap : nat) (Q : K -> V -> bool) (m m' : omap K V) (c : nat),
     cnt (is_valid K V) (slots m) = len m -> len m < Nat.max c mincap ->
@@ -193,3 +193,219 @@ Example C19_nonvacuous :
              capacity N N m = 64 /\ len m = 0).
 Proof. split; eexists; (split; [vm_compute; reflexivity|]); vm_compute; auto. Qed.
 Print Assumptions C19_nonvacuous.
+
+(* ---------------------------------------------------------------------------------------------- *)
+(* Functional correctness of the table (supports C10/C11: the maps DbModel abstracts as association *)
+(* lists — the alias map IndexedMap<String, DbId> = two MapImpl, every index MultiMap<DbValue, DbId>) *)
+(* ---------------------------------------------------------------------------------------------- *)
+
+(* The specification is theories/OpenMapSpec.v (a multimap = a multiset of (key, value) pairs, written as a
+   list compared up to Permutation; `mm_step` = what each operation may show and do; `fm_*` = the ordinary
+   finite map for MapImpl).  The proofs are theories/OpenMapRefine*.v.  Everything below holds for EVERY hash
+   function, every key / value type whose `PartialEq` (keqb / veqb) decides equality, every minimum capacity
+   >= 4 (64 in the code), and every revision with the wrap guard of insert_or_replace and the iterator's
+   `finished` flag (fix fc221a8; with or without its in-place rehash).
+
+   The invariant of every reachable table, `PInv` (spelled out by C19_invariant_is): len = number of Valid
+   slots; capacity 0, or capacity >= mincap and len < capacity; and the PROBE CHAIN: every Valid slot i holding
+   key k is reachable from hash(k) mod capacity by stepping +1 (wrapping) without meeting an Empty slot (Deleted
+   slots are crossed).  It does NOT say that an Empty slot exists: a table of capacity 64 can consist of Valid
+   and Deleted slots only (C19_tombstones_nonvacuous reaches one); lookups then end by the full-cycle guard
+   (`finished` / `pos == start_pos`), and the theorems cover that case. *)
+From Coq Require Import Permutation.
+From Agdb Require Import OpenMapSpec OpenMapRefineBase OpenMapRefineRehash OpenMapRefineStep OpenMapRefine OpenMapRefineMap.
+
+Theorem C19_invariant_is :
+  forall (K V : Type) (h : K -> N) (mincap : nat) (m : omap K V),
+    PInv K V h mincap m <->
+    (cnt (is_valid K V) (slots m) = len m /\
+     (capacity K V m = 0 \/ (mincap <= capacity K V m /\ len m < capacity K V m))) /\
+    (forall i k v, i < capacity K V m -> nth i (slots m) Empty = Valid k v ->
+     forall j, j < capacity K V m ->
+       dist (capacity K V m) (hpos K h k (capacity K V m)) j < dist (capacity K V m) (hpos K h k (capacity K V m)) i ->
+       nth j (slots m) Empty <> Empty).
+Proof. intros. reflexivity. Qed.
+Print Assumptions C19_invariant_is.
+
+(* ALL histories: every list of operations (insert, insert_or_replace with any predicate, remove_key,
+   remove_value, reserve, value, values) run on the table from the empty map completes (fuel = capacity, no
+   out-of-fuel case left), and the list of values it returns to its caller (`run_obs` = `run` with the
+   results kept, C19_run_obs_is_run) is one the abstract multimap allows for the same operations (`mm_run`
+   from the empty multiset); the final multimap is the multiset of the table's Valid slots = what `iter`
+   yields, `len` is its size, and the table satisfies the invariant.  (values k is compared as a multiset:
+   `mm_step` asks for a Permutation; the order is the probe order, C19_lookup_finds_exactly_stored.) *)
+Theorem C19_table_refines_multimap :
+  forall (K V : Type) (keqb : K -> K -> bool) (veqb : V -> V -> bool) (h : K -> N) (mincap : nat) (rv : om_revision),
+    (forall a b, keqb a b = true <-> a = b) -> (forall a b, veqb a b = true <-> a = b) ->
+    4 <= mincap -> fix_insert_wrap_guard rv = true -> fix_iter_finished rv = true ->
+    forall ops : list (op K V),
+    exists (m : omap K V) (obl : list (obs V)) (s : mm K V),
+      run_obs K V keqb veqb h mincap rv empty_map ops = Done (m, obl) /\
+      mm_run K V keqb veqb [] ops obl s /\
+      Permutation (iter_all K V m) s /\ len m = length s /\ PInv K V h mincap m.
+Proof. exact table_refines_multimap. Qed.
+Print Assumptions C19_table_refines_multimap.
+
+Theorem C19_run_obs_is_run :
+  forall (K V : Type) (keqb : K -> K -> bool) (veqb : V -> V -> bool) (h : K -> N) (mincap : nat) (rv : om_revision)
+         (ops : list (op K V)) (m m' : omap K V) (obl : list (obs V)),
+    run_obs K V keqb veqb h mincap rv m ops = Done (m', obl) -> run K V keqb veqb h mincap rv m ops = Done m'.
+Proof. exact run_obs_run. Qed.
+Print Assumptions C19_run_obs_is_run.
+
+(* The same as a simulation from ANY table satisfying the invariant (e.g. one loaded from a file) whose
+   stored pairs are the multiset s: one operation completes, shows what the multimap allows, re-establishes
+   the invariant, and its stored pairs are the multimap's. *)
+Theorem C19_step_refines_multimap :
+  forall (K V : Type) (keqb : K -> K -> bool) (veqb : V -> V -> bool) (h : K -> N) (mincap : nat) (rv : om_revision),
+    (forall a b, keqb a b = true <-> a = b) -> (forall a b, veqb a b = true <-> a = b) ->
+    4 <= mincap -> fix_insert_wrap_guard rv = true -> fix_iter_finished rv = true ->
+    forall (m : omap K V) (o : op K V) (s : mm K V),
+      PInv K V h mincap m -> Permutation (abs K V m) s ->
+      exists m' ob s', step_obs K V keqb veqb h mincap rv m o = Done (m', ob) /\ PInv K V h mincap m' /\
+                       mm_step K V keqb veqb s o ob s' /\ Permutation (abs K V m') s'.
+Proof. exact step_refines. Qed.
+Print Assumptions C19_step_refines_multimap.
+
+(* On every table satisfying the invariant (after every history: C19_table_refines_multimap): `values k`
+   returns exactly the values of the stored pairs of key k — v is returned iff (k, v) is stored, with its
+   multiplicity — `value k` is the first of them (None iff there is none), contains_value / values_count /
+   len agree with the stored multiset (`iter_all` = what MapIterator yields). *)
+Theorem C19_lookup_finds_exactly_stored :
+  forall (K V : Type) (keqb : K -> K -> bool) (veqb : V -> V -> bool) (h : K -> N) (mincap : nat) (rv : om_revision),
+    (forall a b, keqb a b = true <-> a = b) -> (forall a b, veqb a b = true <-> a = b) ->
+    fix_iter_finished rv = true ->
+    forall (m : omap K V) (k : K), PInv K V h mincap m ->
+    exists l, values K V keqb h rv m k = Done l /\
+              value K V keqb h m k = Done (hd_error l) /\
+              Permutation l (mm_values K V keqb k (iter_all K V m)) /\
+              (forall v, In v l <-> In (k, v) (iter_all K V m)) /\
+              (forall v, contains_value K V keqb veqb h rv m k v =
+                         Done (mm_contains_value K V keqb veqb k v (iter_all K V m))) /\
+              values_count K V keqb h rv m k = Done (length (mm_values K V keqb k (iter_all K V m))) /\
+              len m = length (iter_all K V m).
+Proof. exact lookup_finds_exactly_stored. Qed.
+Print Assumptions C19_lookup_finds_exactly_stored.
+
+(* "Still found after rehash" (what C19_rehash_preserves_entries left open): a rehash to any capacity that
+   can hold the pairs (grow, shrink, or none) completes, re-establishes the invariant AT THE NEW CAPACITY,
+   keeps the multiset of pairs, and every lookup returns the same values as before (values as multisets;
+   value is None before iff None after). *)
+Theorem C19_rehash_keeps_lookups :
+  forall (K V : Type) (keqb : K -> K -> bool) (veqb : V -> V -> bool) (h : K -> N) (mincap : nat) (rv : om_revision),
+    (forall a b, keqb a b = true <-> a = b) -> (forall a b, veqb a b = true <-> a = b) ->
+    4 <= mincap -> fix_iter_finished rv = true ->
+    forall (m : omap K V) (c : nat), PInv K V h mincap m -> len m < Nat.max c mincap ->
+    exists m', rehash K V h mincap m c = Done m' /\ PInv K V h mincap m' /\ capacity K V m' = Nat.max c mincap /\
+               Permutation (iter_all K V m') (iter_all K V m) /\
+               forall k, exists l l', values K V keqb h rv m k = Done l /\ values K V keqb h rv m' k = Done l' /\
+                                      Permutation l' l /\
+                                      value K V keqb h m k = Done (hd_error l) /\
+                                      value K V keqb h m' k = Done (hd_error l') /\
+                                      (hd_error l' = None <-> hd_error l = None).
+Proof. exact rehash_keeps_lookups. Qed.
+Print Assumptions C19_rehash_keeps_lookups.
+
+(* The in-place rehash of fix fc221a8 (run after a full probe cycle): the same, and it leaves NO Deleted slot
+   (`clean`): probing stops early again. *)
+Theorem C19_rehash_in_place_keeps_lookups :
+  forall (K V : Type) (keqb : K -> K -> bool) (veqb : V -> V -> bool) (h : K -> N) (mincap : nat) (rv : om_revision),
+    (forall a b, keqb a b = true <-> a = b) -> (forall a b, veqb a b = true <-> a = b) ->
+    4 <= mincap -> fix_iter_finished rv = true ->
+    forall (m : omap K V), PInv K V h mincap m -> 0 < capacity K V m ->
+    exists m', rehash_in_place K V h m = Done m' /\ PInv K V h mincap m' /\ capacity K V m' = capacity K V m /\
+               (forall p, p < capacity K V m' -> nth p (slots m') Empty <> Deleted) /\
+               Permutation (iter_all K V m') (iter_all K V m) /\
+               forall k, exists l l', values K V keqb h rv m k = Done l /\ values K V keqb h rv m' k = Done l' /\
+                                      Permutation l' l /\
+                                      value K V keqb h m k = Done (hd_error l) /\
+                                      value K V keqb h m' k = Done (hd_error l') /\
+                                      (hd_error l' = None <-> hd_error l = None).
+Proof. exact rehash_in_place_keeps_lookups. Qed.
+Print Assumptions C19_rehash_in_place_keeps_lookups.
+
+(* rehash_values itself (the loop shared by grow, shrink and the in-place rehash), on any array: whatever it
+   is given — Deleted slots, broken chains — its result has the probe chain at the new capacity and no
+   Deleted slot below it, provided the part of a grown array beyond the old capacity is Empty. *)
+Theorem C19_rehash_values_establishes_chain :
+  forall (K V : Type) (h : K -> N) (cur newcap : nat) (sl sl' : list (slot K V)),
+    0 < newcap -> cur <= length sl -> newcap <= length sl ->
+    (forall p, cur <= p -> p < newcap -> nth p sl Empty = Empty) ->
+    rehash_values K V h cur newcap sl = Done sl' ->
+    chain K V h newcap sl' /\ (forall p, p < newcap -> nth p sl' Empty <> Deleted).
+Proof. intros K V h. exact (rehash_values_chain K V (fun _ _ => true) (fun _ _ => true) h). Qed.
+Print Assumptions C19_rehash_values_establishes_chain.
+
+(* MapImpl (map.rs; both halves of the alias map): the table used with
+   insert = insert_or_replace k (|_| true) v, remove = remove_key, value, reserve.  Every history completes and
+   shows EXACTLY the observations of the ordinary finite map `fm_run` (an association list with one binding
+   per key: insert returns the previous value of the key, value k = the value inserted last, None after
+   remove); the table holds at most one pair per key, and its pairs are the finite map's bindings. *)
+Theorem C19_map_unique_keys :
+  forall (K V : Type) (keqb : K -> K -> bool) (veqb : V -> V -> bool),
+    (forall a b, keqb a b = true <-> a = b) -> (forall a b, veqb a b = true <-> a = b) ->
+    forall (h : K -> N) (mincap : nat) (rv : om_revision),
+    4 <= mincap -> fix_insert_wrap_guard rv = true -> fix_iter_finished rv = true ->
+    forall mops : list (mop K V),
+    exists m, run_obs K V keqb veqb h mincap rv empty_map (List.map (mop_op K V) mops)
+                = Done (m, fst (fm_run K V keqb [] mops)) /\
+              Permutation (iter_all K V m) (snd (fm_run K V keqb [] mops)) /\
+              NoDup (List.map fst (iter_all K V m)) /\
+              PInv K V h mincap m.
+Proof. exact map_refines_finite_map. Qed.
+Print Assumptions C19_map_unique_keys.
+
+(* the finite map of the previous theorem obeys the usual laws *)
+Theorem C19_finite_map_laws :
+  forall (K V : Type) (keqb : K -> K -> bool), (forall a b, keqb a b = true <-> a = b) ->
+    (forall k v s, fm_get K V keqb k (fm_set K V keqb k v s) = Some v) /\
+    (forall k k' v s, k' <> k -> fm_get K V keqb k' (fm_set K V keqb k v s) = fm_get K V keqb k' s) /\
+    (forall k s, fm_get K V keqb k (fm_remove K V keqb k s) = None) /\
+    (forall k k' s, k' <> k -> fm_get K V keqb k' (fm_remove K V keqb k s) = fm_get K V keqb k' s).
+Proof. exact fm_laws. Qed.
+Print Assumptions C19_finite_map_laws.
+
+(* Non-vacuity 1: an ADVERSARIAL CONSTANT hash (every key probes from slot 7), u64 keys and values, the code's
+   minimum capacity 64.  72 inserts (70 distinct keys and two more values of key 5) cross 64 -> 128; removing
+   60 pairs one by one and key 7 altogether crosses 128 -> 64; the lookups afterwards return exactly what is
+   stored: values 5 = {5, 500, 501}, key 7 gone, key 3 present, insert_or_replace of the value 500 of key 5
+   replaces it (returns 500), values 5 = {5, 9, 501}, the never inserted key 42 is absent. *)
+Definition consth (_ : N) : N := 7%N.
+Definition hc_up : list (op N N) :=
+  List.map (fun i => OInsert N N (N.of_nat i) (N.of_nat i)) (seq 0 70) ++ [OInsert N N 5%N 500%N; OInsert N N 5%N 501%N].
+Definition hc_down : list (op N N) :=
+  List.map (fun i => ORemoveValue N N (N.of_nat i) (N.of_nat i)) (seq 10 60) ++ [ORemoveKey N N 7%N].
+Definition hc_look : list (op N N) :=
+  [OValues N N 5%N; OValue N N 7%N; OValue N N 3%N; OInsertOrReplace N N 5%N (N.eqb 500%N) 9%N;
+   OValues N N 5%N; OValue N N 42%N].
+
+Example C19_refinement_nonvacuous :
+  (exists m obl, run_obs N N N.eqb N.eqb consth 64 om_fixed empty_map hc_up = Done (m, obl) /\
+                 capacity N N m = 128 /\ len m = 72) /\
+  (exists m obl, run_obs N N N.eqb N.eqb consth 64 om_fixed empty_map (hc_up ++ hc_down ++ hc_look) = Done (m, obl) /\
+                 capacity N N m = 64 /\ len m = 11 /\
+                 skipn (length obl - 6) obl =
+                 [ObsValues [5%N; 500%N; 501%N]; ObsValue None; ObsValue (Some 3%N); ObsReplaced (Some 500%N);
+                  ObsValues [5%N; 9%N; 501%N]; ObsValue None]).
+Proof. split; eexists; eexists; (split; [vm_compute; reflexivity|]); vm_compute; auto. Qed.
+Print Assumptions C19_refinement_nonvacuous.
+
+(* Non-vacuity 2: the table WITHOUT ANY Empty slot.  Identity hash; two values of key 5 and key 69 (which
+   collides with 5 modulo 64), then 61 x { MapImpl::insert(200 + i, 1); remove(200 + i) } turn the other 61
+   slots of the capacity-64 table into tombstones: no Empty slot is left, the lookups (of present and of
+   absent keys) end by the full-cycle guard and still return exactly the stored values; the 62nd cycle's
+   insert runs a full probe cycle and rehashes in place (an Empty slot exists again), with the same lookups. *)
+Definition tomb_pre : list (op N N) := [OInsert N N 5%N 1%N; OInsert N N 5%N 2%N; OInsert N N 69%N 3%N].
+Definition tomb_cycles (n : nat) : list (op N N) :=
+  flat_map (fun i => [OInsertOrReplace N N (N.of_nat (200 + i)) always 1%N; ORemoveKey N N (N.of_nat (200 + i))]) (seq 0 n).
+Definition tomb_look : list (op N N) := [OValues N N 5%N; OValue N N 69%N; OValue N N 133%N].
+
+Example C19_tombstones_nonvacuous :
+  (exists m obl, run_obs N N N.eqb N.eqb idh 64 om_fixed empty_map (tomb_pre ++ tomb_cycles 61 ++ tomb_look) = Done (m, obl) /\
+                 capacity N N m = 64 /\ len m = 3 /\ existsb (is_empty N N) (slots m) = false /\
+                 skipn (length obl - 3) obl = [ObsValues [1%N; 2%N]; ObsValue (Some 3%N); ObsValue None]) /\
+  (exists m obl, run_obs N N N.eqb N.eqb idh 64 om_fixed empty_map (tomb_pre ++ tomb_cycles 62 ++ tomb_look) = Done (m, obl) /\
+                 capacity N N m = 64 /\ len m = 3 /\ existsb (is_empty N N) (slots m) = true /\
+                 skipn (length obl - 3) obl = [ObsValues [1%N; 2%N]; ObsValue (Some 3%N); ObsValue None]).
+Proof. split; eexists; eexists; (split; [vm_compute; reflexivity|]); vm_compute; auto. Qed.
+Print Assumptions C19_tombstones_nonvacuous.
